@@ -4,7 +4,7 @@ import Dcg.Gen.GraphqlTables
 /-
 Driver for the ordering half of C17 (`Dcg/Model/GraphqlOrder.lean`): the member occurrences of a
 union alias rendered from the GENERATED template, the emission order of a schema, and the refuter of
-the side condition `safeMulti`.
+the side condition `safeFrom 1`.
 -/
 namespace Dcg.Driver.GraphqlOrder
 open Dcg.Driver Dcg.Model.GraphqlOrder Dcg.Gen.GraphqlTables
@@ -51,7 +51,7 @@ def handlers : List (String × Handler) := [
         "ok " ++ strs ((defs.filter (fun u => u.kind == .union && !aliasResolves unionTemplate env order defs u)).map (·.name))
       | _, _ => "err args"
     | _ => "err args"),
-  -- gqlorder.findeager → none | ok (<template variables to set>) <member count>     (refuter of safeMulti)
+  -- gqlorder.findeager → none | ok (<template variables to set>) <member count>     (refuter of safeFrom 1)
   ("gqlorder.findeager", fun
     | [] => match findEagerBranch unionTemplate with
       | some (vs, n) => "ok " ++ strs (vs.map String.toList) ++ " " ++ toString n
